@@ -757,7 +757,30 @@ def canon_cmp(op, l, r):
         def rank(x):
             return 2 if x[0] == 'c' else (1 if x[0] == 'g' else 0)
         if rank(l) > rank(r) or (rank(l) == rank(r) and repr(l) > repr(r)):
-            return ('cmp', op, r, l)
+            l, r = r, l
+    # S.find(x) < 0, S.find(x) == -1, S.count(x) == 0 ... are `x not in S`; their complements `x in S`
+    def _probe(t):
+        if t[0] == 'call' and t[1][0] == 'attr' and t[1][2] in ('find', 'count') and len(t[2]) == 1 and not t[3]:
+            return t[1][2], t[1][1], t[2][0]
+        return None
+
+    def _ci(t):
+        return t[1] if t[0] == 'c' and isinstance(t[1], int) and not isinstance(t[1], bool) else None
+    pl, pr = _probe(l), _probe(r)
+    if pl is not None and _ci(r) is not None:
+        kind, S, x = pl
+        n = _ci(r)
+        absent = {('find', '<', 0), ('find', '==', -1), ('find', '<=', -1), ('count', '==', 0), ('count', '<', 1), ('count', '<=', 0)}
+        present = {('find', '!=', -1), ('count', '!=', 0)}
+        if (kind, op, n) in absent:
+            return ('cmp', 'not in', x, S)
+        if (kind, op, n) in present:
+            return ('cmp', 'in', x, S)
+    if pr is not None and _ci(l) is not None:
+        kind, S, x = pr
+        n = _ci(l)
+        if (kind, op, n) in {('find', '<=', 0), ('find', '<', -1), ('count', '<', 0), ('count', '<=', 1)}:
+            return ('cmp', 'in', x, S)
     return ('cmp', op, l, r)
 
 
